@@ -107,6 +107,12 @@ func parseValidatorTags(tag string) ([]validatorTag, error) {
 }
 
 func tryValidate(val reflect.Value) error {
+	// a value held by an interface (an interface{} field, an entry of a
+	// map[string]interface{}) is validated like the value itself
+	for val.Kind() == reflect.Interface && !val.IsNil() {
+		val = val.Elem()
+	}
+
 	t := val.Type()
 	var validator Validator
 
